@@ -74,6 +74,28 @@ func newChanEngine(p *Prog) *chanEngine {
 			e.latch[f] = true
 		}
 	}
+	// a field whose type is a one-channel wrapper around a latch channel is a latch
+	for _, pk := range p.Pkgs {
+		if pk.Types == nil {
+			continue
+		}
+		sc := pk.Types.Scope()
+		for _, n := range sc.Names() {
+			tn, ok := sc.Lookup(n).(*types.TypeName)
+			if !ok {
+				continue
+			}
+			st, ok := tn.Type().Underlying().(*types.Struct)
+			if !ok {
+				continue
+			}
+			for i := 0; i < st.NumFields(); i++ {
+				if in := chanWrapperInner(st.Field(i).Type()); in != nil && e.latch[in] {
+					e.latch[st.Field(i)] = true
+				}
+			}
+		}
+	}
 	return e
 }
 
